@@ -173,6 +173,52 @@ pub fn check(spec: &NetSpec) -> Option<String> {
             }
         }
     }
+    // the family of whole NETWORKS: an unknown function has one interpretation per instantiation, shared by every update
+    // function that mentions it - compare the set of tuples (truth table of every target) jointly
+    let tvars: Vec<usize> = (0..n).filter(|t| should.contains(&spec.vars[*t])).collect();
+    let mut fns = vec![];
+    let mut all_fresh: BTreeSet<String> = BTreeSet::new();
+    for &t in &tvars {
+        let vid = bn.as_graph().find_variable(&spec.vars[t])?;
+        let f = bn.get_update_function(vid).clone()?;
+        let mut names = BTreeSet::new();
+        names_in(&f, &bn, &mut names);
+        all_fresh.extend(names.into_iter().filter(|x| !spec.vars.contains(x)));
+        fns.push(f);
+    }
+    if tvars.len() >= 2 && all_fresh.len() <= 14 {
+        let fresh: Vec<String> = all_fresh.into_iter().collect();
+        let mut got: BTreeSet<Vec<Vec<bool>>> = BTreeSet::new();
+        for code in 0..(1u32 << fresh.len()) {
+            let mut tuple = vec![];
+            for f in &fns {
+                let mut table = vec![];
+                for s in 0..(1usize << n) {
+                    let mut val: BTreeMap<String, bool> = BTreeMap::new();
+                    for (i, v) in spec.vars.iter().enumerate() {
+                        val.insert(v.clone(), s >> i & 1 == 1);
+                    }
+                    for (j, x) in fresh.iter().enumerate() {
+                        val.insert(x.clone(), code >> j & 1 == 1);
+                    }
+                    table.push(eval_fn(f, &bn, &val).ok()?);
+                }
+                tuple.push(table);
+            }
+            got.insert(tuple);
+        }
+        let want: BTreeSet<Vec<Vec<bool>>> = interps.iter().map(|i| tvars.iter().map(|&t| (0..(1usize << n)).map(|s| spec.update(t, s, i)).collect()).collect()).collect();
+        if got != want {
+            return Some(format!(
+                "OBSERVATION (C19 is stated per variable; this is not a verdict): taken together the output's update functions range over {} networks, the input's over {} (missing {}, extra {}): a function symbol shared by several update functions must keep ONE interpretation; output: {}",
+                got.len(),
+                want.len(),
+                want.difference(&got).count(),
+                got.difference(&want).count(),
+                crate::report::truncate(&out.stdout.replace('\n', "; "), 300)
+            ));
+        }
+    }
     None
 }
 
@@ -451,6 +497,20 @@ pub fn run(tier: &str) -> Result<Report, String> {
             (accepted, v)
         })
         .collect();
+    // the joint comparison (one interpretation of a symbol shared by several update functions) goes beyond the statement of
+    // C19, which speaks about each variable's function on its own: counted and sampled in the evidence, never a violation
+    let mut joint_obs: Vec<String> = vec![];
+    let res: Vec<(bool, Option<Violation>)> = res
+        .into_iter()
+        .map(|(a, v)| match v {
+            Some(v) if v.what.contains("OBSERVATION (C19 is stated per variable") => {
+                joint_obs.push(v.what);
+                (a, None)
+            }
+            other => (a, other),
+        })
+        .collect();
+    rep.set("joint_family_observations", json!({"networks_whose_joint_family_differs": joint_obs.len(), "samples": joint_obs.iter().take(3).collect::<Vec<_>>(), "note": "on the unchanged tree a zero-arity parameter used by a variable without regulators keeps its name while its other uses are renamed `<name>_`; outside C19's per-variable statement"}));
     let mut accepted = 0u64;
     for (a, v) in res {
         if a {
